@@ -293,7 +293,22 @@ def np_round(interp, args, kwargs, node):
     return round_value(interp, args[0], args[1] if len(args) > 1 else kwargs.get('decimals', 0), node)
 
 
-NP_FUNCS = {'round': np_round, 'zeros': np_zeros, 'identity': np_identity, 'roll': np_roll, 'array': np_array, 'sum': np_sum,
+def np_isclose(interp, args, kwargs, node):
+    """numpy.isclose(a, b, rtol=1e-05, atol=1e-08) for scalars: |a - b| <= atol + rtol * |b| (A1: over the reals)"""
+    from fractions import Fraction
+    if len(args) < 2:
+        raise Raised('TypeError', getattr(node, 'lineno', None), 'isclose() missing operands', implicit=True)
+    a, b = args[0], args[1]
+    rtol = args[2] if len(args) > 2 else kwargs.get('rtol', Fraction(1, 100000))
+    atol = args[3] if len(args) > 3 else kwargs.get('atol', Fraction(1, 100000000))
+    if not all(is_num(x) for x in (a, b, rtol, atol)):
+        raise Unsupported("numpy.isclose on non-scalars")
+    ra, rb = real(a), real(b)
+    absz = lambda t: z3.If(t >= 0, t, -t)      # noqa: E731
+    return z3.simplify(absz(ra - rb) <= real(atol) + real(rtol) * absz(rb))
+
+
+NP_FUNCS = {'isclose': np_isclose, 'round': np_round, 'zeros': np_zeros, 'identity': np_identity, 'roll': np_roll, 'array': np_array, 'sum': np_sum,
             'shape': np_shape, 'size': np_size}
 
 
@@ -362,6 +377,13 @@ class GridArr:
             return BoundV(self, BuiltinV('ndarray.__setitem__', lambda i, a, k, n: a[0].sym_setitem(i, a[1], a[2], n)))
         if attr == 'flatten':
             return BoundV(self, BuiltinV('ndarray.flatten', lambda i, a, k, n: a[0].flat_list()))
+        if attr == 'copy':
+            def _copy(i, a, k, n):
+                g = a[0]
+                if not g.is_concrete():
+                    raise Unsupported("copy of an abstract grid")
+                return GridArr(g.R, g.C, [list(r) for r in g.cells], fresh_=True)      # new array, same well objects
+            return BoundV(self, BuiltinV('ndarray.copy', _copy))
         raise Unsupported(f"ndarray.{attr} on a grid of wells")
 
     def flat_list(self):
@@ -394,6 +416,8 @@ class GridArr:
         if not self.is_concrete():
             raise Unsupported("indexing an abstract grid")
         R, C = self.shape_c
+        if k is Ellipsis:
+            k = (SliceV(None, None, None), SliceV(None, None, None))
         if not isinstance(k, tuple):
             k = (k, SliceV(None, None, None))
         if len(k) != 2:
@@ -415,6 +439,8 @@ class GridArr:
         if not self.is_concrete():
             raise Unsupported("store into an abstract grid")
         R, C = self.shape_c
+        if k is Ellipsis:
+            k = (SliceV(None, None, None), SliceV(None, None, None))
         if not isinstance(k, tuple):
             k = (k, SliceV(None, None, None))
         rows, rint = self._axis(interp, k[0], R, node)
@@ -547,6 +573,12 @@ class GridFlat:
     def sym_setitem(self, interp, k, value, node=None):
         if isinstance(k, int):
             self.items[k] = value
+            return
+        if k is Ellipsis or (isinstance(k, SliceV) and k.start is None and k.stop is None and k.step is None):
+            vals = value.items if isinstance(value, GridFlat) else (list(value) if isinstance(value, list) else [value] * len(self.items))
+            if len(vals) != len(self.items):
+                raise Raised('ValueError', getattr(node, 'lineno', None), 'could not broadcast input array', implicit=True)
+            self.items[:] = vals          # this array is a copy of the selected cells: the plate does not see the store
             return
         raise Unsupported("flat array store")
 
